@@ -56,7 +56,15 @@ pub fn run(tier: &str) -> i32 {
         &|k, d, c| rep.violation(k, d, c),
         if rep.thorough() { 3_000_000 } else { 400_000 },
     );
-    rep.eval(stats.transitions * 2);
+    // second, independent exploration order: transitions reversed, frontiers expanded back to front. The set of
+    // canonical states reached must be identical (a cross-check of the explorer itself, and of state merging)
+    let (stats2, complete2, _) = explore_ordered(&alpha, &map_oracle, &|k, d, c| rep.violation(k, d, c), if rep.thorough() { 3_000_000 } else { 400_000 }, true);
+    rep.set("second_exploration", json!({"order":"reversed transitions, reversed frontiers","states":stats2.states,"transitions":stats2.transitions,"same_state_set":stats2.state_set_digest == stats.state_set_digest && stats2.states == stats.states}));
+    if complete && complete2 && (stats2.states != stats.states || stats2.state_set_digest != stats.state_set_digest) {
+        println!("MACHINERY: two exploration orders reached different state sets ({} vs {} states) - the explorer or the state key is unsound", stats.states, stats2.states);
+        return 2;
+    }
+    rep.eval(stats.transitions * 2 + stats2.transitions * 2);
     rep.nontrivial(stats.states.saturating_sub(alpha.inits.len() as u64));
     rep.set("states", json!(stats.states));
     rep.set("transitions", json!(stats.transitions));
